@@ -286,6 +286,33 @@ Print Assumptions C08_invariant_init.
 Theorem C08_history_refines_fmak : forall n ops, Forall2 osim (runS n sinit ops) (runM n minit ops).
 Proof. exact history_refines_fmak. Qed.
 Print Assumptions C08_history_refines_fmak.
+(* (12a) The state-level statements behind (12), over the weaker invariant `FM.Inv true` (implied by `Inv`; a compiled
+   call may hold the registered Lambda of a name that has no creator, which is then the Lambda of an undefined
+   function): evaluation refines S and keeps tables and invariant ((1), (2) in the states reached WITH fmakunbound);
+   every defun keeps it and installs its definition ((5)); (fmakunbound 'name) keeps it and removes exactly the
+   definition of name - for every caller, compiled before or not - and nothing else. *)
+Theorem C08_invariant_weaker : forall orph st, Inv st -> FM.Inv orph st.
+Proof. exact Inv_weaker. Qed.
+Print Assumptions C08_invariant_weaker.
+Theorem C08_evaluation_refines_spec_fmak : forall ft n st en e rS oS,
+  FM.Inv true st -> Rel st ft -> evalS n ft en (out st) e = (rS, oS) ->
+  exists rM st', evalM n st en e = (rM, st') /\
+    (comparable rS = true -> rM = rS /\ out st' = oS) /\ (is_val rS = false -> is_val rM = false).
+Proof. exact evalM_sim_fmak. Qed.
+Print Assumptions C08_evaluation_refines_spec_fmak.
+Theorem C08_evaluation_preserves_invariant_fmak : forall n st en e r st', evalM n st en e = (r, st') ->
+  (heap st' = heap st /\ lambdas st' = lambdas st /\ funcs st' = funcs st) /\ (FM.Inv true st -> FM.Inv true st').
+Proof. exact evalM_good_fmak. Qed.
+Print Assumptions C08_evaluation_preserves_invariant_fmak.
+Theorem C08_defun_step_fmak : forall st ft name ps body clos, FM.Inv true st -> Rel st ft ->
+  FM.Inv true (defunM st name ps body clos) /\ Rel (defunM st name ps body clos) ((name, (ps, body, clos)) :: ft) /\
+  out (defunM st name ps body clos) = out st.
+Proof. exact defunM_step_fmak. Qed.
+Print Assumptions C08_defun_step_fmak.
+Theorem C08_fmakunbound_step : forall st ft name, FM.Inv true st -> Rel st ft ->
+  FM.Inv true (fmakM st name) /\ Rel (fmakM st name) (sremove name ft) /\ out (fmakM st name) = out st.
+Proof. exact fmakM_step_fmak. Qed.
+Print Assumptions C08_fmakunbound_step.
 (* (12b) The EXACTNESS theorems (9b) C08_history_exact / C08_history_exact_exists do NOT extend to histories with
    fmakunbound, and this is a fact about the per-name lookup-time oracle of runL, not a defect of slip: after
    (fmakunbound 'h) a call of h compiled earlier evaluates its arguments before undefined-function is signalled,
@@ -294,8 +321,8 @@ Print Assumptions C08_history_refines_fmak.
    emits 5, runL under the lookup times read off M's state (h has no creator: early) emits nothing.  Witness 2
    ((h (emit 1) (if t (h (emit 5) 0) 0)) compiled - the arguments of `if` stay list forms -; fmakunbound; run): M
    emits 1 only; runL emits nothing or 1 and 5 under EVERY list of per-name policies.  `no_fmak` in (9b) excludes
-   both; what the undefined-function outcomes of such histories satisfy for all histories is (12): never a value,
-   and equal to S wherever S is binding. *)
+   both, and so does the weaker hypothesis of (12c); what the undefined-function outcomes of the remaining histories
+   satisfy is (12): never a value, and equal to S wherever S is binding. *)
 Theorem C08_history_exact_fmak_refuted :
   runM 10 minit fx_ops1 = [(Val (VSym "h"), []); (Val VNil, []); (Err EUndefined, [VInt 5%Z])] /\
   runL 10 sinit fx_ops1 (pols_run 10 minit fx_ops1) = [(Val (VSym "h"), []); (Val VNil, []); (Err EUndefined, [])] /\
@@ -307,3 +334,29 @@ Theorem C08_history_exact_exists_fmak_refuted :
   forall pols, ~ Forall2 oex (runL 10 sinit fx_ops2 pols) (runM 10 minit fx_ops2).
 Proof. exact history_exact_exists_fmak_refuted. Qed.
 Print Assumptions C08_history_exact_exists_fmak_refuted.
+(* (12c) Exactness under the weakest hypothesis found that excludes the witnesses of (12b): `fmak_clean n minit ops` -
+   along M's run, every (fmakunbound 'name) happens while NO slot holds a compiled call of name (the name was only
+   ever called from top-level list forms, or not at all).  Then every call site of an unbound name is a list form
+   or holds a placeholder made by CompileList, the lookup time is again a function of the name, and M's outcomes
+   are exactly runL's under the lookup times of M's run - undefined-function outcomes and the values emitted before
+   them included.  `no_fmak ops` implies `fmak_clean` (C08_no_fmak_clean), so these subsume C08_history_exact and
+   C08_history_exact_exists (kept).  FULL statement (exactness for EVERY history) is false for the per-name oracle
+   (12b); it needs a lookup time per call site in evalL - left open.  The hypothesis is satisfiable with OFmak and
+   rejects both witnesses (C08_fmak_clean_demo). *)
+Theorem C08_history_exact_fmak : forall n ops, fmak_clean n minit ops = true ->
+  Forall2 oex (runL n sinit ops (pols_run n minit ops)) (runM n minit ops).
+Proof. exact history_exact_fmak. Qed.
+Print Assumptions C08_history_exact_fmak.
+Theorem C08_history_exact_exists_fmak : forall n ops, fmak_clean n minit ops = true ->
+  exists pols, Forall2 oex (runL n sinit ops pols) (runM n minit ops).
+Proof. exact history_exact_exists_fmak. Qed.
+Print Assumptions C08_history_exact_exists_fmak.
+Theorem C08_no_fmak_clean : forall n ops m, no_fmak ops = true -> fmak_clean n m ops = true.
+Proof. exact no_fmak_clean. Qed.
+Print Assumptions C08_no_fmak_clean.
+Theorem C08_fmak_clean_demo :
+  fmak_clean 10 minit fx_ops3 = true /\ no_fmak fx_ops3 = false /\
+  runM 10 minit fx_ops3 = [(Val (VInt 1%Z), []); (Err EUndefined, []); (Val (VInt 1%Z), []); (Val (VInt 1%Z), [VInt 5%Z])] /\
+  fmak_clean 10 minit fx_ops1 = false /\ fmak_clean 10 minit fx_ops2 = false.
+Proof. exact fmak_clean_demo. Qed.
+Print Assumptions C08_fmak_clean_demo.
